@@ -72,6 +72,13 @@ STATES = [
                         "setup": [["getfor", 1, 0, 0, -1], ["change", 2, -1, 0, -1, 2]]},
      [[["change", -1, -1, 0, -1, 1], ["change", 2, -1, 0, 0, 1], ["change", -1, 1, 0, 1, 1], ["change", 1, -1, 0, -1, 2]],
       [G0, GH, GHN, PUT, PUTS, T(0, "TF+TF+5"), DRAIN, ["get", 0, 1, 0, -1]]]),
+    # one tree is full, the other is a small-frame tree in which thread 1 holds a huge frame: thread 1 reserves it with a
+    # small allocation and frees the huge frame into its global counter while thread 0's huge request steals from it
+    ("mixed", ["th4", "th2", "th8"], {"frames": TF2, "init": "free", "cls": "simple", "k": 1,
+                                     "setup": [["getfor", 1, "HO", 1, -1], ["get", 0, 0, -1, 700], ["get", "TO", 1, -1, "TF"]]},
+     [[GH, GHN, G0, G6, ["get", 0, 1, 0, -1]],
+      [[G0, ["put", 0, 1, 0]], [G0, ["put", 0, 1, -1]], [["put", 0, 1, 0], G0], [G6, DRAIN], [["put", 0, 1, -1], GH],
+       [G0, ["put", 0, 1, 0], DRAIN], [G0, ["put", 0, 1, 0], G0, DRAIN]]]),
     ("offlined2", None, {"frames": TF3, "init": "free", "cls": "simple", "k": 1, "setup": [["change", 2, -1, 0, -1, 2]]},
      [[["change", -1, -1, 0, -1, 1], ["change", -1, 1, 0, -1, 1], ["change", 2, -1, 0, -1, 1], ["change", -1, -1, 0, 0, 1]],
       [GH, GHN, G0, G0N, ["get", 0, 1, 0, -1], DRAIN]]),
@@ -82,7 +89,14 @@ STATES = [
 ]
 
 
+def prog(x):
+    """an alphabet entry is one operation or a short program (list of operations)"""
+    return x if x and isinstance(x[0], list) else [x]
+
+
 def overlap(a, b):
+    if isinstance(a[0], list) or isinstance(b[0], list):
+        return False
     if a[0] == "putraw" and b[0] == "putraw":
         (fa, oa), (fb, ob) = (a[1], a[2]), (b[1], b[2])
         return fa < fb + (1 << ob) and fb < fa + (1 << oa)
@@ -103,24 +117,24 @@ def scenarios(geo, with_triples=False, with_known=False, only=None):
             for j, b in enumerate(b_ops):
                 if overlap(a, b):
                     continue  # callers are well behaved: two threads never free overlapping frames
-                if name == "whole" and a[0] == "putraw" and b[0] == "putraw" and not with_known:
+                if name == "whole" and not isinstance(a[0], list) and not isinstance(b[0], list) and a[0] == "putraw" and b[0] == "putraw" and not with_known:
                     continue
                 s = dict(base)
                 s["name"] = "G:%s:%d:%d" % (name, i, j)
-                s["threads"] = [[a], [b]]
+                s["threads"] = [prog(a), prog(b)]
                 out.append(s)
         if with_triples:
             small = a_ops[:4]
             for i, a in enumerate(small):
                 for j, b in enumerate(b_ops[:4]):
                     for k, c in enumerate(small):
-                        if c[0] in ("put", "putpart") or overlap(a, b) or overlap(a, c) or overlap(b, c):
+                        if isinstance(c[0], list) or c[0] in ("put", "putpart") or overlap(a, b) or overlap(a, c) or overlap(b, c):
                             continue  # thread 2 holds nothing; no overlapping frees
-                        if name == "whole" and sum(1 for o in (a, b, c) if o[0] == "putraw") >= 2 and not with_known:
+                        if name == "whole" and sum(1 for o in (a, b, c) if not isinstance(o[0], list) and o[0] == "putraw") >= 2 and not with_known:
                             continue
                         s = dict(base)
                         s["name"] = "G3:%s:%d:%d:%d" % (name, i, j, k)
-                        s["threads"] = [[a], [b], [c]]
+                        s["threads"] = [prog(a), prog(b), prog(c)]
                         out.append(s)
     return out
 
